@@ -58,7 +58,7 @@ def build(goodwe, family, variant, transport, seed, fill):
 
 
 def es_block(dev, cmd):
-    n = ES_RUNTIME_LEN if cmd == 0x0106 else ES_SETTINGS_LEN
+    n = ES_RUNTIME_LEN if cmd == 0x0106 else getattr(dev, "es_settings_len", ES_SETTINGS_LEN)
     base = 200000 if cmd == 0x0106 else 300000
     if dev.fill == "step":
         return bytes(dev.step_byte(base + j) for j in range(n))
@@ -180,7 +180,7 @@ def derived_expectations(dev, family, sensors, goodwe_const, alts=None):
             base = ids.get(sn.id_[:-6])
             w = R.WIDTH[cls]
             b = own_bytes(dev, family, sn, w)
-            exp[sn.id_] = R.decode(cls, b, labels=labels)
+            exp[sn.id_] = R.decode(cls, b, labels=labels, enum_signed=True)   # C13: lookup of the code as reported
         elif cls == "EnumBitmap4":
             labels = getattr(sn, "_labels", None)
             if labels is not None:
